@@ -429,11 +429,15 @@ public:
             s.threads.push_back(r);
             if (s.threads.size() > s.st.threads) s.st.threads = (unsigned)s.threads.size();
             rec_ = r;
-            os_ = ::std::thread([r, fn]() mutable {
+            // the callable (and whatever it captured) is destroyed by the logical thread itself,
+            // while it still holds the baton
+            auto fnp = ::std::make_shared<decltype(fn)>(::std::move(fn));
+            os_ = ::std::thread([r, fnp]() mutable {
                 dsched::Sched& sc = dsched::S();
                 dsched::Sched::self() = r;
                 while (sem_wait(&r->sem) != 0) {}
-                fn();
+                (*fnp)();
+                fnp.reset();
                 // finish: wake joiners, pass the baton on
                 r->state = dsched::ThreadRec::FINISHED;
                 sc.wake_all('j', r);
